@@ -86,6 +86,14 @@ pub enum BAct {
     PartsEntryRemove(String),
     /// parts.qualifiers.retain(non-empty values)
     PartsRetainNonEmpty,
+    /// build() and, if it succeeds, into_builder(): the history continues from the normalised value
+    Rebuild,
+    /// build(), to_string(), from_str(), into_builder(): the history continues from the re-parsed value
+    Reparse,
+    /// parts.qualifiers.iter_mut(): write the value of the first / last pair
+    PartsIterMutWrite(bool, String),
+    /// parts.qualifiers.get_mut(k) = v (no effect when absent)
+    PartsGetMutWrite(String, String),
 }
 
 pub struct BState<T: BFlavor> {
@@ -103,6 +111,8 @@ pub struct BModel<T: BFlavor> {
     pub mon: u32,
     pub acts: Vec<BAct>,
     pub parsed_inits: usize,
+    /// the reduced ("sharp") instance: fewer actions and initial states, explored deeper
+    pub sharp: bool,
     _t: std::marker::PhantomData<T>,
 }
 
@@ -293,7 +303,60 @@ impl<T: BFlavor> BModel<T> {
         acts.push(BAct::NoQual("a".to_owned()));
         acts.push(BAct::NoQual("B".to_owned()));
         acts.push(BAct::PartsRetainNonEmpty);
-        BModel { prop, mon, acts, parsed_inits, _t: std::marker::PhantomData }
+        acts.push(BAct::Rebuild);
+        acts.push(BAct::Reparse);
+        acts.push(BAct::PartsIterMutWrite(true, "".to_owned()));
+        acts.push(BAct::PartsIterMutWrite(false, "w".to_owned()));
+        acts.push(BAct::PartsGetMutWrite("K".to_owned(), "".to_owned()));
+        acts.push(BAct::PartsGetMutWrite("checksum".to_owned(), "B:ff,a:0A".to_owned()));
+        BModel { prop, mon, acts, parsed_inits, sharp: false, _t: std::marker::PhantomData }
+    }
+
+    /// The reduced instance for deeper histories: one action of each kind that touches shared state
+    /// (qualifier list edits through every route, checksum, cross-field setters, re-build / re-parse in
+    /// the middle of a history), a handful of initial states.
+    pub fn new_sharp(prop: &'static str, mon: u32) -> Self {
+        let full = Self::new(prop, mon, 0);
+        let ty = T::type_universe();
+        let q = |k: &str, v: &str| BAct::Qual(k.to_owned(), v.to_owned());
+        let want: Vec<BAct> = vec![
+            BAct::Type(ty[1 % ty.len()].clone()),
+            BAct::Ns("a/b".into()),
+            BAct::NoNs,
+            BAct::Name("A--b".into()),
+            BAct::Name("".into()),
+            BAct::Version("a?b#c".into()),
+            BAct::NoVersion,
+            BAct::Subpath("../x".into()),
+            q("k", "a"),
+            q("K", ""),
+            q("k", "a&b=c"),
+            q("checksum", "B:ff,a:0A"),
+            q("checksum", "zz"),
+            q("CheckSum", "a:00"),
+            BAct::NoQual("K".into()),
+            BAct::NoQual("checksum".into()),
+            BAct::NoQuals,
+            BAct::TypedRepo(Some("a".into())),
+            BAct::TypedRepo(None),
+            BAct::TypedCustom(Some("x".into())),
+            BAct::TypedChecksum(Some("B:ff,a:0A".into())),
+            BAct::TypedChecksum(Some("<default>".into())),
+            BAct::TypedChecksum(None),
+            BAct::PartsQual("L".into(), "".into()),
+            BAct::PartsQual("l".into(), "v".into()),
+            BAct::PartsEntryRemove("K".into()),
+            BAct::PartsEntryRemove("b".into()),
+            BAct::PartsRetainNonEmpty,
+            BAct::PartsIterMutWrite(true, "".into()),
+            BAct::PartsGetMutWrite("checksum".into(), "B:ff,a:0A".into()),
+            BAct::Rebuild,
+            BAct::Reparse,
+        ];
+        for w in &want {
+            assert!(full.acts.contains(w), "sharp action {:?} is not an action of the full model", w);
+        }
+        BModel { prop, mon, acts: want, parsed_inits: 0, sharp: true, _t: std::marker::PhantomData }
     }
 }
 
@@ -311,6 +374,9 @@ impl<T: BFlavor> Model for BModel<T> {
             for n in UNIVERSE {
                 let real = GenericPurlBuilder::new(T::make(&t), n);
                 let refb = RefBuilder { ty: t.clone(), name: n.to_owned(), ..Default::default() };
+                if self.sharp && !(n == "a" && (t == T::type_universe()[0] || t.eq_ignore_ascii_case("pypi") || t.eq_ignore_ascii_case("maven"))) {
+                    continue;
+                }
                 out.push((json!({"new": [t, n]}), BState { real, refb }));
             }
         }
@@ -321,7 +387,7 @@ impl<T: BFlavor> Model for BModel<T> {
             ("five-with-checksum", vec![("a", "1"), ("b", "2"), ("checksum", "a:00"), ("k", "v"), ("z", "9")]),
             ("adjacent-empties", vec![("a", ""), ("b", ""), ("c", "3"), ("d", "")]),
         ] {
-            for t in T::type_universe().into_iter().take(2) {
+            for t in T::type_universe().into_iter().take(if self.sharp { 1 } else { 2 }) {
                 let mut real = GenericPurlBuilder::new(T::make(&t), "n").with_namespace("g");
                 let mut refb = RefBuilder { ty: t.clone(), ns: "g".into(), name: "n".into(), ..Default::default() };
                 for (k, v) in &quals {
@@ -386,7 +452,9 @@ impl<T: BFlavor> Model for BModel<T> {
     }
 
     fn key(&self, s: &BState<T>) -> String {
-        format!("{:?}|{:?}", s.refb, real_fields(&s.real))
+        // the Debug form of the real builder is part of the key: anything the implementation keeps
+        // besides the public fields makes a different state, whose futures are explored too
+        format!("{:?}|{:?}|{:?}", s.refb, real_fields(&s.real), s.real)
     }
 
     fn step(&self, s: &BState<T>, a: &BAct, trace: &dyn Fn() -> Value, acc: &mut Acc) -> BState<T> {
@@ -548,6 +616,55 @@ impl<T: BFlavor> Model for BModel<T> {
                 let _ = nb.parts.qualifiers.insert(k.as_str(), v.as_str());
                 r.quals.insert(k.to_ascii_lowercase(), v.clone());
                 nb
+            },
+            BAct::PartsIterMutWrite(first, w) => {
+                let mut nb = b;
+                {
+                    let mut it = nb.parts.qualifiers.iter_mut();
+                    if let Some((_, slot)) = if *first { it.next() } else { it.next_back() } {
+                        *slot = w.as_str().into();
+                    }
+                }
+                let target = if *first { r.quals.keys().next().cloned() } else { r.quals.keys().next_back().cloned() };
+                if let Some(k) = target {
+                    r.quals.insert(k, w.clone());
+                }
+                nb
+            },
+            BAct::PartsGetMutWrite(k, w) => {
+                let mut nb = b;
+                if let Some(slot) = nb.parts.qualifiers.get_mut(k.as_str()) {
+                    *slot = w.as_str().into();
+                }
+                if let Some(slot) = r.quals.get_mut(&k.to_ascii_lowercase()) {
+                    *slot = w.clone();
+                }
+                nb
+            },
+            BAct::Rebuild | BAct::Reparse => {
+                // (whether build() may fail here is judged by the state oracle of the source state)
+                let Ok(p) = b.build() else { return s.clone() };
+                // what a successful build() normalises: type, name rule, empty qualifiers, checksum
+                r.ty = r.ty.to_ascii_lowercase();
+                if T::TYPED {
+                    r.name = R::name_rule(&r.ty, &r.name);
+                }
+                r.quals.retain(|_, v| !v.is_empty());
+                if let Some(c) = r.quals.get("checksum").cloned() {
+                    if let Some(canon) = R::checksum_canonical(&c) {
+                        r.quals.insert("checksum".into(), canon);
+                    }
+                }
+                if matches!(a, BAct::Rebuild) {
+                    p.into_builder()
+                } else {
+                    let text = p.to_string();
+                    let Ok(p2) = T::parse(&text) else { return s.clone() };
+                    // the parser hands out namespace and subpath without insignificant segments
+                    r.ns = significant(&r.ns, false).unwrap_or_default();
+                    r.subpath = significant(&r.subpath, true).unwrap_or_default();
+                    p2.into_builder()
+                }
             },
         };
         // per-transition oracle: the public fields are the reference record
